@@ -6,6 +6,7 @@ package main
 import (
 	"bytes"
 	"fmt"
+	"strings"
 	"time"
 
 	"github.com/notaryproject/notation-core-go/signature"
@@ -71,11 +72,16 @@ func runHistory(r *Runner, format string, start string, ops []string, idx int, l
 		if err != nil {
 			panic(err)
 		}
-		verifies := true
+		verifies, readable := true, true
 		if start == "parsed-tampered" {
 			// flip a bit in the signature bytes: content still reads, verification fails
 			b = tamperSignature(format, b)
 			verifies = false
+		}
+		if strings.HasPrefix(start, "parsed-padded-") {
+			// base64url segments with RFC 4648 padding: the envelope parses (it is JSON), neither read operation accepts it
+			b = padSegment(b, strings.TrimPrefix(start, "parsed-padded-"))
+			verifies, readable = false, false
 		}
 		env2, err := signature.ParseEnvelope(mediaType(format), b)
 		if err != nil {
@@ -88,7 +94,7 @@ func runHistory(r *Runner, format string, start string, ops []string, idx int, l
 				startSig = append([]byte{}, c.SignerInfo.Signature...)
 			}
 		}
-		startAbs = map[string]any{"content": 4, "verifies": verifies, "readable": true}
+		startAbs = map[string]any{"content": 4, "verifies": verifies, "readable": readable}
 	}
 	// the signature value the object must be showing: that of the bytes it was parsed from, then that of the bytes the last
 	// successful Sign returned ("matches the bytes that signing returned")
@@ -249,6 +255,14 @@ func genC20(r *Runner) {
 			}
 		}
 	}
+	// parsed JWS envelopes that no read operation accepts (padded base64url segments): every history up to length 3
+	for _, seg := range []string{"signature", "payload", "protected"} {
+		for n := 1; n <= 3; n++ {
+			for _, seq := range sequences(stateOps, n) {
+				jobs = append(jobs, job{"jws", "parsed-padded-" + seg, seq, (len(jobs)%2 == 0)})
+			}
+		}
+	}
 	// the wide alphabet: every history up to length 3 (quick) / 4 (thorough)
 	wideLen := 3
 	if tier() != "quick" {
@@ -274,4 +288,27 @@ func genC20(r *Runner) {
 	}
 	runJobs(len(jobs), func(i int) { runHistory(r, jobs[i].format, jobs[i].start, jobs[i].ops, i, jobs[i].local) })
 	r.sum.Exhaustive = true
+}
+
+// padSegment appends RFC 4648 padding to the named base64url member of a JWS JSON envelope (when its length is a multiple
+// of four already, a whole "====" is not valid padding: one character is dropped from the value first — the signature then
+// differs, which is all the same for an envelope nobody accepts)
+func padSegment(b []byte, member string) []byte {
+	key := []byte(`"` + member + `":"`)
+	i := bytes.Index(b, key)
+	if i < 0 {
+		panic("no member " + member)
+	}
+	st := i + len(key)
+	en := st + bytes.IndexByte(b[st:], '"')
+	v := string(b[st:en])
+	if len(v)%4 == 0 {
+		v = v[:len(v)-1]
+	}
+	for len(v)%4 != 0 {
+		v += "="
+	}
+	out := append([]byte{}, b[:st]...)
+	out = append(out, v...)
+	return append(out, b[en:]...)
 }
